@@ -3,6 +3,7 @@ package props
 import (
 	"bytes"
 	"fmt"
+	"io"
 	"strings"
 
 	"github.com/tyler-sommer/stick"
@@ -102,7 +103,7 @@ type execRes struct {
 	pan interface{}
 }
 
-func runExec(env *stick.Env, safe bool, main string, w *mon.FaultWriter, ctx0 map[string]stick.Value) (r execRes) {
+func runExec(env *stick.Env, safe bool, main string, w io.Writer, ctx0 map[string]stick.Value) (r execRes) {
 	// a template-level set writes into the caller's map: every run gets its own copy
 	ctx := make(map[string]stick.Value, len(ctx0))
 	for k, v := range ctx0 {
@@ -261,6 +262,15 @@ var c17Failing = []func() gen.Expr{
 	func() gen.Expr { return &gen.ECall{Fn: "nofunc"} },
 	func() gen.Expr { return &gen.EGroup{X: &gen.EBin{Op: "matches", L: num(1), R: str("(")}} },
 	func() gen.Expr { return &gen.EFilter{X: num(1), Name: "nofilter"} },
+	// every other way an expression fails at run time
+	func() gen.Expr { return &gen.ENum{Text: "1" + strings.Repeat("0", 400)} },                 // a literal no float64 holds
+	func() gen.Expr { return &gen.EGroup{X: &gen.ETest{X: num(1), Test: "nosuchtest"}} },       // unknown test
+	func() gen.Expr { return &gen.EGroup{X: &gen.EBin{Op: "in", L: num(1), R: num(5)}} },       // nothing is in a number
+	func() gen.Expr { return &gen.EGroup{X: &gen.EBin{Op: "..", L: num(1), R: num(2000000000)}} }, // range beyond the limit
+	func() gen.Expr {
+		return &gen.EGroup{X: &gen.EBin{Op: "..", L: &gen.EGroup{X: &gen.EBin{Op: "/", L: num(1), R: num(0)}}, R: num(2)}}
+	}, // infinite bound
+	func() gen.Expr { return &gen.EBlockFn{Name: str("nosuchblock")} },
 }
 
 var c17Carriers = []func(e gen.Expr) gen.Node{
@@ -385,13 +395,19 @@ func (p *c17) Run(i int) (res fw.Result) {
 	// (a) writer failing at every k
 	if r0.err == nil {
 		for k := 1; k <= W; k++ {
-			for mode := 0; mode < 3; mode++ {
-				partial := mode == 1
-				w := &mon.FaultWriter{FailAt: k, Partial: partial, Full: mode == 2}
-				r := runExec(newEnv(base), false, main, w, ctx)
+			for mode := 0; mode < 6; mode++ {
+				partial := mode%3 == 1
+				w := &mon.FaultWriter{FailAt: k, Partial: partial, Full: mode%3 == 2}
+				var dst io.Writer = w
+				if mode >= 3 {
+					// a destination that also has WriteString (a bufio.Writer, an os.File, most response writers):
+					// io.WriteString goes there, and its error counts like that of Write
+					dst = &mon.FaultStringWriter{FaultWriter: w}
+				}
+				r := runExec(newEnv(base), false, main, dst, ctx)
 				res.Evals++
 				res.AddObs("writer_faults", 1)
-				sub := fmt.Sprintf("w%d/%s", k, []string{"rejected", "half-accepted", "all-accepted-with-error"}[mode])
+				sub := fmt.Sprintf("w%d/%s", k, []string{"rejected", "half-accepted", "all-accepted-with-error", "rejected (WriteString)", "half-accepted (WriteString)", "all-accepted-with-error (WriteString)"}[mode])
 				switch {
 				case r.pan != nil:
 					fail("panic", sub, fmt.Sprintf("writer failing at write %d: Execute panicked: %v", k, r.pan))
